@@ -473,7 +473,21 @@ void vf_case(Ctx& ctx, uint64_t i) {
     c.seti("ct", r.chance(0.03) ? 0 : r.irange(1, 4)); c.seti("fr", r.irange(0, 3));
     c.seti("pc", r.coin()); c.seti("rev", r.coin()); c.seti("ov", r.chance(0.2) ? 1 : 0);
     Paths64 subj, clip, open; int kind = 0;
-    if (!biased) {
+    if (!biased && r.chance(0.15)) {
+      // features of a few scaled units: crossings round onto vertices and onto each other, so the engine's point rings
+      // carry coincident and nearly coincident points when the result paths are built
+      c.seti("scene", 101);
+      long double su = g.step();
+      int64_t Rt = std::max<int64_t>(2, (int64_t)llroundl((long double)r.irange(2, 40) / su));
+      Rt = std::min(Rt, Mn);
+      int64_t cx = r.coin() ? 0 : r.range(-(Mn - Rt), Mn - Rt), cy = r.coin() ? 0 : r.range(-(Mn - Rt), Mn - Rt);
+      int ns = r.irange(0, 2), nc = r.irange(1, 2), no = api != A_BOOL ? r.irange(1, 3) : 0;
+      for (int j = 0; j < ns; ++j) subj.push_back(gen::random_poly(r, cx, cy, Rt, r.irange(3, 6)));
+      for (int j = 0; j < nc; ++j) clip.push_back(r.coin() ? gen::random_poly(r, cx, cy, Rt, r.irange(3, 6)) : gen::star_shaped(r, cx, cy, (double)Rt, r.irange(3, 8), 0.5, 1.0, r.coin()));
+      for (int j = 0; j < no; ++j) open.push_back(gen::polyline(r, cx, cy, Rt, r.irange(2, 5)));
+      auto clampall = [&](Paths64& pp) { for (auto& q : pp) for (auto& pt : q) { pt.x = std::max(-Mn, std::min(Mn, pt.x)); pt.y = std::max(-Mn, std::min(Mn, pt.y)); } };
+      clampall(subj); clampall(clip); clampall(open);
+    } else if (!biased) {
       bool_scene(ctx, Mn, subj, clip, kind);
       c.seti("scene", kind);
       if (api != A_BOOL && r.chance(0.6)) {
